@@ -8,7 +8,7 @@ CONSTANTS
   MaxNpts = 4
   Acts = {"CvCopy", "CvFraction"}
   PtKinds = {"gen"}
-  WtKinds = {"none", "gen"}
+  WtKinds = {"none", "gen", "const"}
   ExtraNodes <- Extra0
   NodeSize = 2
   Scenario = "single"
